@@ -26,7 +26,7 @@ META = {
                  'C13_equal_names_v1_refuted', 'C13_tag_key_before_first_dump_refuted', 'C13_member_auto_tag_refuted',
                  'C13_cont_dispatch_v1', 'C13_cont_dispatch_v0_partial', 'C13_cont_dict_member_captures_v0', 'C13_cont_dict_member_refuted',
                  'C13_cont_values_v0', 'C13_cont_values_v1', 'C13_cont_order_irrelevant_v0', 'C13_cont_order_irrelevant_v1',
-                 'C13_partial_fields', 'C13_defaults_filled'],
+                 'C13_partial_fields', 'C13_defaults_filled', 'C13_multi_union_dispatch', 'C13_multi_union_error_is_local'],
     'tables': [],
     'level_text': ('Theorems proved in Coq for ALL families (any number of members, any field sets, scalar members and None mixed in), '
                    'all injective tag assignments (explicit / auto / mixed), all tag-key strings that are not a field, all Union argument '
@@ -40,7 +40,8 @@ META = {
                    '"no dict-typed member" (_partial) and refuted otherwise - a dict-typed member takes EVERY dict whatever the argument order '
                    '(C13_cont_dict_member_captures_v0, finding F96, open); list / dict values of a container member are never mistaken for a dataclass; '
                    'Permutation invariance with container members; a tagged document with ANY subset of the fields is handed to the tagged class and '
-                   'its constructor rule (defaults / MissingFields) applies (C13_partial_fields, C13_defaults_filled). '
+                   'its constructor rule (defaults / MissingFields) applies (C13_partial_fields, C13_defaults_filled); several distinct Unions in one '
+                   'annotation are independent positions, each dispatching with its own tag table (C13_multi_union_dispatch, _error_is_local). '
                    'The model is re-validated against the implementation on every run.'),
     'level_note': ('Trusted: Coq kernel + vm_compute; the hand-written model coq/model/TagUnion.v (field values travel unchanged: field-level '
                    'coercions are C01/C04; element conversions of container-typed Union members for values that are not of the declared '
@@ -53,7 +54,10 @@ META = {
              '(documents built by the harness); tag assignment = full product {explicit, none} x {member auto flag} x {container auto flag}; histories: '
              'members dumped / loaded alone (both orders) before the container is first used; documents as dict / OrderedDict / defaultdict / user subclass; '
              'a stream of RICH members (path fields, aliases, defaults/factories, skip rules, init=False, nested dataclasses/containers, CatchAll, inheritance '
-             'between members; direct predicates only); a stream of families with 1-3 container-typed members (List[int|str], Dict[str, int|str], '
+             'between members; direct predicates only); a stream with 1-3 DISTINCT tagged Unions (same / different sizes, disjoint / overlapping member '
+             'sets) at the slots of a Tuple (bare, list element, dict value) that is one field, a dict value or a list element of one field, or in '
+             'separate fields of one class: every member of every Union at its position round-trips, a tag of ANOTHER Union is rejected with the '
+             'valid tags of that position\'s Union; a stream of families with 1-3 container-typed members (List[int|str], Dict[str, int|str], '
              'Tuple[int, int], Tuple[int, ...]) at random places among the arguments, with a value of every container member, untagged lists / dicts '
              '(empty, wrong element type, nested) and tagged documents that omit the defaulted fields; plus a small stream of families with equal __name__s (region F9). distinct = distinct '
              'configuration JSON; every configuration has >= 2 look-alike members, so every one is non-trivial.'),
@@ -316,6 +320,86 @@ def check_untagged_cont(cfg, op, r):
     return None
 
 
+# ---- several DISTINCT tagged Unions inside one field annotation / in several fields of one class ------------------------
+MULTI_SLOTS = ['%s', 'List[%s]', 'Dict[str, %s]']
+MULTI_LAYOUTS = ['tuple', 'tuple', 'dict_tuple', 'list_tuple', 'fields']
+
+
+def gen_multi_config(rng, engine):
+    """1-3 Unions (same / different sizes, disjoint / overlapping member sets) at tuple slots, each slot bare, a list element or
+    a dict value; the tuple is the field, a dict value or a list element of ONE field - or every slot is its own field."""
+    n_un = rng.choice([1, 2, 2, 3, 3])
+    sizes = [rng.choice([2, 2, 3]) for _ in range(n_un)]
+    if rng.random() < 0.5:
+        sizes = [sizes[0]] * n_un                                  # same size
+    rel = rng.choice(['disjoint', 'overlap', 'overlap'])
+    if rel == 'disjoint':
+        n = sum(sizes)
+        ids = list(range(n)); rng.shuffle(ids)
+        unions, k = [], 0
+        for sz in sizes:
+            unions.append(ids[k:k + sz]); k += sz
+    else:
+        n = rng.choice([3, 4, 5])
+        unions = [rng.sample(range(n), sz) for sz in sizes]
+        n = max(max(u) for u in unions) + 1
+    auto = rng.random() < 0.6
+    pool = rng.sample(ODD, n) if rng.random() < 0.3 else ['t%d' % i for i in range(n)]
+    fields = [list(FIELD_POOL[0])] + ([list(FIELD_POOL[1])] if rng.random() < 0.5 else [])
+    members = []
+    for i in range(n):
+        explicit = (not auto) or rng.random() < 0.4
+        members.append({'pyname': 'K%d' % i, 'style': rng.choice(['inner', 'plain']), 'fields': fields,
+                        'tag': pool[i] if explicit else None, 'catchall': False, 'own_auto': False})
+    tk = rng.choice([None, None, 'type', 'kind'] + ODD)
+    layout = rng.choice(MULTI_LAYOUTS)
+    cfg = {'engine': engine, 'multi': True, 'mode': 'roundtrip', 'members': members, 'unions': unions,
+           'slots': [rng.choice(MULTI_SLOTS) for _ in unions], 'layout': layout, 'order': sorted({j for u in unions for j in u}),
+           'relation': 'multi-' + rel, 'tagging': 'auto' if auto else 'explicit', 'doc_type': 'dict', 'history': 'none',
+           'container': {'tag_key': tk, 'auto_assign_tags': auto, 'position': 'multi-' + layout, 'unknown': None}}
+    tkey = tag_key(cfg)
+    tags = [expected_tag(cfg, i) for i in range(n)]
+    ops = []
+    base = [u[0] for u in unions]
+    for pos, u in enumerate(unions):
+        for j in u:                                               # every member of every Union at its position
+            choice = list(base); choice[pos] = j
+            ops.append({'op': 'mrt', 'choice': choice, 'values': [values_for(members[x], rng) for x in choice]})
+        own = {tags[j] for j in u}
+        foreign = [t for t in tags if t not in own]               # valid in ANOTHER Union of the class, not in this one
+        for t in (rng.sample(foreign, 1) if foreign else []) + ['nope']:
+            if t in own:
+                continue
+            ops.append({'op': 'mtag', 'choice': list(base), 'values': [values_for(members[x], rng) for x in base],
+                        'pos': pos, 'tag': t, 'tag_key': tkey})
+    cfg['ops'] = ops
+    return cfg
+
+
+def check_op_multi(cfg, op, r):
+    tk = tag_key(cfg)
+    if op['op'] == 'mrt':
+        if 'err' in r:
+            return ('dump/load with members %r at the Union positions raised %s: %s' % (op['choice'], r['err'], (r.get('msg') or '')[:200]), None)
+        for pos, j in enumerate(op['choice']):
+            d = uncanon(r['dumped'][pos])
+            if not isinstance(d, dict) or d.get(tk) != expected_tag(cfg, j):
+                return ('position %d: dump of a K%d instance is %r, expected tag %r under %r' % (pos, j, d, expected_tag(cfg, j), tk), None)
+            if r['loaded_members'][pos] != j:
+                return ('position %d (Union %r): type(load(dump(k))) is member %r, expected member %d'
+                        % (pos, cfg['unions'][pos], r['loaded_members'][pos], j), None)
+            if not r['equal'][pos]:
+                return ('position %d: load(dump(k)) != k' % pos, None)
+        return None
+    if r.get('err') != 'ParseError':
+        return ('position %d: tag %r is not assigned in Union %r: got %s, expected ParseError'
+                % (op['pos'], op['tag'], cfg['unions'][op['pos']], r.get('err') or 'a value'), None)
+    want = sorted({expected_tag(cfg, j) for j in cfg['unions'][op['pos']]})
+    if r.get('valid_tags') != want:
+        return ('position %d: ParseError lists valid tags %r, expected those of THAT Union %r' % (op['pos'], r.get('valid_tags'), want), None)
+    return None
+
+
 # ---- rich members: the declaration styles of the other properties, crossed with the tag modes ----------------------
 RICH_POOL = [   # name, type, kind, value generator, default source (for the 'default' style)
     ('a', 'int', 'plain', lambda r: r.randrange(-9, 10), '3'),
@@ -533,6 +617,9 @@ def gen_configs(ctx):
     # container-typed members (list / dict / tuple) beside the dataclasses
     for _ in range(150 if quick else 1200):
         cfgs.append(gen_cont_config(rng, rng.choice(['v0', 'v1'])))
+    # several distinct tagged Unions in one field annotation / in several fields of one class
+    for _ in range(110 if quick else 900):
+        cfgs.append(gen_multi_config(rng, rng.choice(['v0', 'v1', 'v1'])))
     # region F9: equal __name__s
     for _ in range(30 if quick else 200):
         cfgs.append(gen_config(rng, rng.choice(['v0', 'v1']), rng.choice(['roundtrip', 'loadfirst']), equal_names=True))
@@ -658,6 +745,8 @@ def check_op(cfg, op, r):
     tk = tag_key(cfg)
     if cfg.get('rich'):
         return check_op_rich(cfg, op, r)
+    if cfg.get('multi'):
+        return check_op_multi(cfg, op, r)
     if op['op'] == 'roundtrip':
         i = op['member']
         if 'err' in r:
@@ -900,7 +989,7 @@ def eval_model(ctx, cfgs, results, limit):
     for ci, (cfg, res) in enumerate(zip(cfgs, results)):
         if ci >= limit:
             break
-        if res.get('setup') or cfg.get('rich'):
+        if res.get('setup') or cfg.get('rich') or cfg.get('multi'):
             continue          # rich members: direct predicates only (the model's members have plain fields)
         pre, items = model_exprs(cfg, res, ci)
         if cur_exprs and len(cur_exprs) + len(items) > 200:
@@ -993,6 +1082,9 @@ def run(ctx):
                             ctx.hist('rich_declarations', kw_.rstrip('('))
                 if m_.get('base') is not None:
                     ctx.hist('rich_declarations', 'inherits member')
+        if cfg.get('multi'):
+            ctx.hist('unions in one class', '%s/%d unions/sizes %s/%s' % (cfg['layout'], len(cfg['unions']),
+                                                                       'same' if len({len(u) for u in cfg['unions']}) == 1 else 'different', cfg['relation']))
         ctx.hist('relation', cfg['relation'])
         ctx.hist('tagging', cfg['tagging'])
         ctx.hist('position', cfg['container']['position'])
